@@ -151,6 +151,42 @@ def Win.process (w : Win) (n : Nat) : Win × Nat :=
       ({ w' with cur := w.cur + inc, proc := 0 }, inc)
     else (w', 0)
 
+/-! ### receiving a response (`_receive_response`, `_receive_response_body`, `_receive_stream_event`) -/
+
+/-- the events h2 emits for one stream, in the order the shared reader queued them -/
+inductive SEv
+  | response (status : Nat) (headers : List (Bytes × Bytes))
+  | data (d : Bytes)
+  | ended
+  | reset (code : Nat)
+  deriving DecidableEq, Repr
+
+inductive RecvOutcome
+  | complete (status : Nat) (headers : List (Bytes × Bytes)) (body : Bytes)
+  | failed              -- RemoteProtocolError (stream reset)
+  | needMore            -- the queue ran dry: the caller reads on (and fails if the connection ends)
+  deriving DecidableEq, Repr
+
+/-- body phase: DATA is appended, END_STREAM completes, a reset fails; `resetFails = false` would be a reader that
+treats RST_STREAM as the end of the body -/
+def recvBody (resetFails : Bool) (status : Nat) (hs : List (Bytes × Bytes)) (acc : Bytes) : List SEv → RecvOutcome
+  | [] => .needMore
+  | .data d :: rest => recvBody resetFails status hs (acc ++ d) rest
+  | .ended :: _ => .complete status hs acc
+  | .reset _ :: _ => if resetFails then .failed else .complete status hs acc
+  | .response _ _ :: rest => recvBody resetFails status hs acc rest
+
+/-- head phase: everything before the response headers is skipped, except a reset -/
+def recvHead (resetFails : Bool) : List SEv → RecvOutcome
+  | [] => .needMore
+  | .response st hs :: rest => recvBody resetFails st hs [] rest
+  | .reset _ :: rest => if resetFails then .failed else recvHead resetFails rest
+  | _ :: rest => recvHead resetFails rest
+
+/-- what the code does (the two flags are regenerated from the source) -/
+def recv (evs : List SEv) : RecvOutcome :=
+  recvHead (Gen.h2ResetAlwaysFails && Gen.h2BodyEndsOnlyOnStreamEnded) evs
+
 /-! ### GOAWAY and re-sending -/
 
 inductive GoawayOutcome | connectionNotAvailable | remoteProtocolError
